@@ -503,11 +503,11 @@ theorem sintercard_two (c : Ctx) (s : State) (k1 k2 : Bytes) (m1 m2 : List Bytes
   rcases nthPerm_pair c.order (k1, true) (k2, true) with hp | hp
   · rw [hp, run_interLoop_two c s k1 k2 m1 m2 e1 e2 _ _ h1 l1 h2 l2]
     refine ⟨inter2 0 m1 m2, ?_, mem_inter2_zero m1 m2, fun hn _ => nodup_inter2_zero m1 m2 hn⟩
-    simp [sinterTail]
+    simp [sinterTail, interAll]
   · rw [hp, run_interLoop_two c s k2 k1 m2 m1 e2 e1 _ _ h2 l2 h1 l1]
     refine ⟨inter2 0 m2 m1, ?_, fun x => (mem_inter2_zero m2 m1 x).trans And.comm,
       fun _ hn => nodup_inter2_zero m2 m1 hn⟩
-    simp [sinterTail]
+    simp [sinterTail, interAll]
 
 /-- **SINTERCARD k1 k2 LIMIT n** (n > 0): the number of common members capped at `n` -/
 theorem sintercard_two_limit (c : Ctx) (s : State) (k1 k2 l : Bytes) (n : Nat) (m1 m2 : List Bytes) (e1 e2 : Option Int)
@@ -527,13 +527,115 @@ theorem sintercard_two_limit (c : Ctx) (s : State) (k1 k2 l : Bytes) (n : Nat) (
   rcases nthPerm_pair c.order (k1, true) (k2, true) with hp | hp
   · rw [hp, run_interLoop_two c s k1 k2 m1 m2 e1 e2 _ _ h1 l1 h2 l2]
     refine ⟨inter2 0 m1 m2, ?_, mem_inter2_zero m1 m2, fun hn _ => nodup_inter2_zero m1 m2 hn⟩
-    simp [sinterTail, hpos, inter2, List.length_take]
+    simp [sinterTail, interAll, hpos, inter2, List.length_take]
     congr 1; split <;> omega
   · rw [hp, run_interLoop_two c s k2 k1 m2 m1 e2 e1 _ _ h2 l2 h1 l1]
     refine ⟨inter2 0 m2 m1, ?_, fun x => (mem_inter2_zero m2 m1 x).trans And.comm,
       fun _ hn => nodup_inter2_zero m2 m1 hn⟩
-    simp [sinterTail, hpos, inter2, List.length_take]
+    simp [sinterTail, interAll, hpos, inter2, List.length_take]
     congr 1; split <;> omega
+
+/-- **SINTERCARD over any number of sets, with or without LIMIT** (what the handler does once its operand loop
+    has read the sets, in whatever order the operand map was walked): the answer is the number of members common
+    to *every* set — capped at the limit when one is given (`limit > 0`), and by nothing else. In particular a
+    LIMIT over three or more sets no longer answers with the size of a partial intersection. -/
+theorem sintercard_tail (limit : Nat) (src dest : Bytes) (sets : List (Nat × List Bytes)) (hne : sets ≠ []) :
+    ∃ r : List Bytes,
+      sinterTail 2 limit src dest sets = .ret (.ok (intReply ((if 0 < limit then min limit r.length else r.length : Nat) : Int))) ∧
+      (∀ x, x ∈ r ↔ ∀ st ∈ sets, x ∈ st.2) ∧ ((∀ st ∈ sets, st.2.Nodup) → r.Nodup) := by
+  refine ⟨interAll sets.length (sets.map (·.2)), ?_, fun x => ?_, fun h => nodup_interAll _ _ (by
+      intro a ha; obtain ⟨st, hs, rfl⟩ := List.mem_map.mp ha; exact h st hs)⟩
+  · have he : sets.isEmpty = false := by cases sets with
+      | nil => exact absurd rfl hne
+      | cons a r => rfl
+    simp only [sinterTail, he]
+    by_cases hl : 0 < limit
+    · by_cases h2 : sets.length ≥ 2
+      · simp [hl, h2, List.length_take]
+        congr 1; split <;> omega
+      · simp [hl, h2]
+        congr 1; split <;> omega
+    · have h0 : limit = 0 := by omega
+      subst h0; simp
+  · have hm : sets.map (·.2) ≠ [] := by simpa using hne
+    rw [mem_interAll x sets.length (sets.map (·.2)) hm (by simp)]
+    constructor
+    · intro h st hs; exact h st.2 (List.mem_map.mpr ⟨st, hs, rfl⟩)
+    · intro h a ha; obtain ⟨st, hs, rfl⟩ := List.mem_map.mp ha; exact h st hs
+
+/-- **SINTERCARD k₁ … kₙ LIMIT l** — any number of pairwise distinct keys, each a live set, walked in whatever
+    order the operand map yields: the answer is the number of members common to *all* the sets named, capped at
+    the limit when it is positive (`LIMIT 0` = no cap), and the state is unchanged. Covers one key (the limit
+    used to be ignored) and three or more (a partial intersection used to be returned) alike. -/
+theorem sintercard_many_limit (c : Ctx) (s : State) (ks : List Bytes) (mem : Bytes → List Bytes) (l : Bytes) (n : Nat)
+    (hks : ks ≠ []) (hnd : ks.Nodup) (hp : ∀ k ∈ ks, PlainKey k) (hl : isAscii l = true)
+    (hn : adaptType l = .int (n : Int))
+    (hlive : ∀ k ∈ ks, ∃ ex, s.lookup c.db k = some ⟨.set 0 (mem k), ex⟩ ∧
+      (⟨.set 0 (mem k), ex⟩ : Entry).expired c.now = false) :
+    ∃ r : List Bytes,
+      (handleSInter 2 c (b "sintercard" :: (ks ++ [b "limit", l]))).run c s
+        = (s, .done (.ok (intReply ((if 0 < n then min n r.length else r.length : Nat) : Int)))) ∧
+      (∀ x, x ∈ r ↔ ∀ k ∈ ks, x ∈ mem k) ∧ ((∀ k ∈ ks, (mem k).Nodup) → r.Nodup) := by
+  obtain ⟨cmd, hcmd⟩ : ∃ cmd, cmd = b "sintercard" :: (ks ++ [b "limit", l]) := ⟨_, rfl⟩
+  rw [← hcmd]
+  have hlen : 1 ≤ ks.length := by cases ks with
+    | nil => exact absurd rfl hks
+    | cons a r => simp
+  have h1 : ¬ (cmd.length < 2) := by rw [hcmd]; simp
+  have hall : cmd.all isAscii = true := by
+    rw [hcmd]; simp [sintercard_name_facts, hl]
+    exact fun k hk => (hp k hk).1
+  have hidx : cmd.findIdx? (fun t => eqFold t (b "limit")) = some (ks.length + 1) := by
+    rw [hcmd, List.findIdx?_cons]
+    simp only [sintercard_name_facts]
+    rw [findIdx?_skip _ ks _ (fun k hk => (hp k hk).2)]
+    simp [List.findIdx?_cons, sintercard_name_facts]
+  have hreads : sinterReads 2 cmd = ks := by
+    simp only [sinterReads, hidx]
+    rw [hcmd]; simp
+  have hlim : sinterLimit cmd (some (ks.length + 1)) = .ok (n : Int) := by
+    have hlt : ¬ (ks.length + 1 < 2) := by omega
+    have hget : cmd[ks.length + 1 + 1]? = some l := by
+      rw [hcmd]; simp
+    simp only [sinterLimit, hlt, if_false, hget, hn]
+  have hex : keysExist s c.db ks = ks.map fun _ => true := by
+    unfold keysExist
+    apply List.map_congr_left
+    intro k hk
+    obtain ⟨ex, h, _⟩ := hlive k hk
+    simp [h]
+  have hrun : (handleSInter 2 c cmd).run c s =
+      (interLoop (nthPerm c.order (ks.map fun k => (k, true))) (.ok (intReply 0))
+        (sinterTail 2 n ((nthPerm c.order (ks.map fun k => (k, true))).headD ([], false)).1 (cmd.getD 1 []))).run c s := by
+    simp [handleSInter, h1, hall, hidx, hreads, hlim, eraseDups_of_nodup ks hnd, hex, zip_map_true]
+  rw [hrun]
+  have hperm := nthPerm_perm c.order (ks.map fun k => (k, true))
+  have hL : ∀ p ∈ nthPerm c.order (ks.map fun k => (k, true)), p.2 = true ∧
+      ∃ ex, s.lookup c.db p.1 = some ⟨.set 0 (mem p.1), ex⟩ ∧ (⟨.set 0 (mem p.1), ex⟩ : Entry).expired c.now = false := by
+    intro p hp'
+    obtain ⟨k, hk, rfl⟩ := List.mem_map.mp (hperm.mem_iff.mp hp')
+    exact ⟨rfl, hlive k hk⟩
+  rw [run_interLoop_all c s mem _ _ _ hL]
+  have hne : ((nthPerm c.order (ks.map fun k => (k, true))).map fun p => ((0 : Nat), mem p.1)) ≠ [] := by
+    intro h0
+    have := congrArg List.length h0
+    simp only [List.length_map, hperm.length_eq, List.length_nil] at this
+    omega
+  obtain ⟨r, hr, hmem, hnodup⟩ := sintercard_tail n ((nthPerm c.order (ks.map fun k => (k, true))).headD ([], false)).1
+    (cmd.getD 1 []) _ hne
+  refine ⟨r, by rw [hr]; rfl, fun x => ?_, fun h => hnodup ?_⟩
+  · rw [hmem]
+    constructor
+    · intro h k hk
+      exact h (0, mem k) (List.mem_map.mpr ⟨(k, true), hperm.mem_iff.mpr (List.mem_map.mpr ⟨k, hk, rfl⟩), rfl⟩)
+    · intro h st hst
+      obtain ⟨p, hp', rfl⟩ := List.mem_map.mp hst
+      obtain ⟨k, hk, rfl⟩ := List.mem_map.mp (hperm.mem_iff.mp hp')
+      exact h k hk
+  · intro st hst
+    obtain ⟨p, hp', rfl⟩ := List.mem_map.mp hst
+    obtain ⟨k, hk, rfl⟩ := List.mem_map.mp (hperm.mem_iff.mp hp')
+    exact h k hk
 
 /-- SINTERCARD with an absent operand answers 0, state unchanged -/
 theorem sintercard_absent_operand (c : Ctx) (s : State) (k1 k2 : Bytes) (m1 : List Bytes) (e1 : Option Int)
@@ -1016,6 +1118,20 @@ theorem sintercard_single_key_limit_replay :
     ((handleSInter 2 c [b "sintercard", b "k", b "limit", b "1"]).run c s).2 = .done (.ok (b ":1\r\n")) ∧
     ((handleSInter 2 c [b "sintercard", b "k", b "limit", b "5"]).run c s).2 = .done (.ok (b ":2\r\n")) := by decide
 
+/-- repaired upstream (was the witness of class `sintercard-limit-over-three-sets-stops-early`, where the answer
+    was 1): three sets that intersect pairwise in two members and have no common member — SINTERCARD ta tb tc
+    LIMIT 1 answers 0 in whatever order the operands are walked; and with a common member added to all three,
+    LIMIT 1 answers 1 and LIMIT 5 the true cardinality 1 -/
+theorem sintercard_limit_three_sets_replay :
+    let st (x : List Bytes) : State := { dbs := [(0, ⟨[(b "ta", ⟨.set 0 ([b "p", b "q", b "r", b "s"] ++ x), none⟩),
+      (b "tb", ⟨.set 0 ([b "p", b "q", b "t", b "u"] ++ x), none⟩), (b "tc", ⟨.set 0 ([b "r", b "s", b "t", b "u"] ++ x), none⟩)], []⟩)], mem := 0 }
+    (∀ o, o < 6 → ((handleSInter 2 { db := 0, now := 1000, order := o } [b "sintercard", b "ta", b "tb", b "tc", b "limit", b "1"]).run
+        { db := 0, now := 1000, order := o } (st [])).2 = .done (.ok (b ":0\r\n"))) ∧
+    (∀ o, o < 6 → ((handleSInter 2 { db := 0, now := 1000, order := o } [b "sintercard", b "ta", b "tb", b "tc", b "limit", b "1"]).run
+        { db := 0, now := 1000, order := o } (st [b "z"])).2 = .done (.ok (b ":1\r\n"))) ∧
+    (∀ o, o < 6 → ((handleSInter 2 { db := 0, now := 1000, order := o } [b "sintercard", b "ta", b "tb", b "tc", b "limit", b "5"]).run
+        { db := 0, now := 1000, order := o } (st [b "z"])).2 = .done (.ok (b ":1\r\n"))) := by decide
+
 /-- class `sinterstore-absent-operand-keeps-destination`: SINTERSTORE d a missing answers 0 but leaves the old
     destination in place instead of replacing it with the empty result -/
 theorem sinterstore_absent_operand_keeps_destination_witness :
@@ -1129,6 +1245,23 @@ example := sintercard_two c0 s0 (b "k") (b "j") [b "a", b "b", b "c"] [b "b", b 
   (by decide) plain_k.1 plain_k.2.1 (by decide) (by decide) (by decide) (by decide)
 example := sintercard_single_limit c0 s0 (b "k") (b "2") 2 [b "a", b "b", b "c"] none plain_k.1 (by decide) adapt_two.1 (by decide)
   (by decide) (by decide)
+example := sintercard_tail 1 (b "k") (b "k") [(0, [b "p", b "q"]), (0, [b "q", b "t"]), (0, [b "q", b "s"])] (by decide)
+example := sintercard_many_limit c0
+  { dbs := [(0, ⟨[(b "ta", ⟨.set 0 [b "p", b "q", b "z"], none⟩), (b "tb", ⟨.set 0 [b "q", b "t", b "z"], none⟩),
+                  (b "tc", ⟨.set 0 [b "q", b "s", b "z"], some 2000⟩)], []⟩)], mem := 0 }
+  [b "ta", b "tb", b "tc"]
+  (fun k => if k == b "ta" then [b "p", b "q", b "z"] else if k == b "tb" then [b "q", b "t", b "z"] else [b "q", b "s", b "z"])
+  (b "1") 1 (by decide) (by decide)
+  (fun k hk => by
+    simp only [List.mem_cons, List.not_mem_nil, or_false] at hk
+    rcases hk with rfl | rfl | rfl <;> exact ⟨by decide, by decide⟩)
+  (by decide) (by decide)
+  (fun k hk => by
+    simp only [List.mem_cons, List.not_mem_nil, or_false] at hk
+    rcases hk with rfl | rfl | rfl
+    · exact ⟨none, by decide, by decide⟩
+    · exact ⟨none, by decide, by decide⟩
+    · exact ⟨some 2000, by decide, by decide⟩)
 example := sintercard_two_limit c0 s0 (b "k") (b "j") (b "2") 2 [b "a", b "b", b "c"] [b "b", b "d"] none (some 2000)
   (by decide) plain_k.1 plain_k.2.1 (by decide) adapt_two.1 (by decide) (by decide) (by decide) (by decide) (by decide)
 example := sintercard_absent_operand c0 s0 (b "k") (b "z") [b "a", b "b", b "c"] none plain_k.1 plain_k.2.2
